@@ -604,3 +604,5 @@ def rules(ctx):
     from . import common_alias as CA
     CA.attr_alias_write(ctx, "C09.alias-write", list(ctx.tree.all_functions()), "Scope: every function of the package.")
     ctx.floor("C09.alias-write", 20)
+    from . import common_alias as _CA
+    _CA.shallow_copy_mutation(ctx, "C09.shallow-copy", ("program.py", "program_utils.py", "engine.py", "utils/program_functions.py", "tdm/program.py", "io/blackbird_io.py", "io/xir_io.py"))
